@@ -111,7 +111,10 @@ class C25(Prop):
         "C25_certificate_request_sound adds the comparison with what was REQUESTED (fracture-grid "
         "measure = requested fracture length/area, 3-D intersection-line length, host node span = "
         "domain box, one fracture grid per fracture); C25_certificate_extents_sound adds the "
-        "per-axis extent of every fracture grid = extent of its (snapped) fracture.  The oracle is "
+        "per-axis extent of every fracture grid = extent of its (snapped) fracture; "
+        "C25_certificate_coupling_complete adds coupling completeness (faces coinciding with cells "
+        "of a lower-dimensional grid = faces coupled to it by an interface, so a missing interface "
+        "at a T/L ending is rejected).  The oracle is "
         "the same predicate in numpy.")
     level_note = (
         "P-core.  NOT proved: gmsh meshing, _assemble_mdg face matching, create_interfaces / "
@@ -140,7 +143,11 @@ class C25(Prop):
             "below k, e.g. 0.29, 0.57, 0.58 with 100 cells) or off-grid in the lower / upper half of "
             "a cell; the expected fracture is the request snapped to the NEAREST grid plane per "
             "coordinate, computed in exact rationals; every grid is checked against the REQUESTED "
-            "(snapped) fractures and domain: plane/line equation, measure, extent per axis; "
+            "(snapped) fractures and domain: plane/line equation, measure, extent per axis; one case in "
+            "five is a 2-D T- or L-ending (Cartesian, non-dividing or tensor; Cartesian, tensor and "
+            "simplex endings are also replayed from the corpus); COUPLING COMPLETENESS is checked for "
+            "every pair of grids of dimensions d, d-1: the faces whose centre coincides with a cell "
+            "of the lower grid are exactly the faces an interface between the two couples; "
             "non-trivial = at least one interface with two sides")
     trusted = ["gmsh meshing and _assemble_mdg face matching are NOT modelled: their output is validated "
                "per instance by the certificate (conformity checker evaluated in Coq on the real "
@@ -214,11 +221,11 @@ class C25(Prop):
             args = {"cell_size": args["cell_size_x"]}
         return "cartesian", args
 
-    def _gen_struct2d(self, rng, mode):
+    def _gen_struct2d(self, rng, mode, conf=None):
         nx, ny = rng.randint(3, 6), rng.randint(3, 6)
         h = rng.choice([0.5, 1.0, 0.25])
         xs, ys = self._lines(rng, nx, mode, h), self._lines(rng, ny, mode, h)
-        conf = rng.choice(["one", "X", "T", "L", "two", "bdry", "three"])
+        conf = conf or rng.choice(["one", "X", "T", "L", "two", "bdry", "three"])
         fr = []
         j = rng.randint(1, ny - 1)
         i = rng.randint(1, nx - 1)
@@ -411,7 +418,10 @@ class C25(Prop):
     def generate(self, rng, n, tier):
         for it in range(n):
             r = rng.random()
-            if it % 5 == 1:
+            if it % 5 == 0:      # a fracture ending on another one (T) or two ending at one point (L)
+                yield self._gen_struct2d(rng, rng.choice(["cartesian", "tensor", "cart_nondiv"]),
+                                         conf="T" if it % 10 == 0 else "L")
+            elif it % 5 == 1:
                 yield self._gen_dec(rng, 3)
             elif it % 5 == 3:
                 yield self._gen_dec(rng, 2)
@@ -515,6 +525,7 @@ class C25(Prop):
         iface_hosts = []
         host_ids = []
         coupled = {}
+        coupled_pair = {}
         for intf, d in mdg.interfaces(return_data=True):
             h, l = mdg.interface_to_subdomain_pair(intf)
             fc = sps.csr_matrix(d["face_cells"])
@@ -531,6 +542,7 @@ class C25(Prop):
                                   "nout": (sgn * h.face_normals[:, f]).tolist(),
                                   "ncells": int(row.size), "tag": bool(h.tags["fracture_faces"][f])})
                     coupled.setdefault(id(h), set()).add(int(f))
+                    coupled_pair.setdefault((id(h), id(l)), set()).add(int(f))
                 cells.append({"c": l.cell_centers[:, c].tolist(), "vol": float(l.cell_volumes[c]),
                               "faces": faces})
             s2m = sps.csr_matrix(intf.secondary_to_mortar_int())
@@ -581,11 +593,34 @@ class C25(Prop):
             tot = [float(v) for sd in lines for v in sd.cell_volumes]
             meas_req.append([tot, req_line if req_line is not None else 0.0])
         nfr = sum(1 for sd in mdg.subdomains() if sd.dim == top - 1)
+        # Coupling completeness: for every pair (grid of dimension d, grid of dimension d-1) the
+        # faces of the first whose centre coincides with a cell centre of the second, against the
+        # faces an interface between the two couples (no interface = no coupled face).
+        subs = list(mdg.subdomains())
+        inc_raw = []
+        for hh in subs:
+            if hh.dim < 1:
+                continue
+            fcen = hh.face_centers
+            for ll in subs:
+                if ll.dim != hh.dim - 1:
+                    continue
+                coin = set()
+                for c in range(ll.num_cells):
+                    cc = ll.cell_centers[:, c:c + 1]
+                    hit = np.all(np.abs(fcen - cc) <= TOL * (1 + np.abs(cc)), axis=0)
+                    coin.update(int(f) for f in np.flatnonzero(hit))
+                coup = coupled_pair.get((id(hh), id(ll)), set())
+                if coin or coup:
+                    inc_raw.append([id(hh), sorted(coin), sorted(coup), [hh.dim, ll.dim]])
+        extra = {}
+        for hid, coin, coup, _ in inc_raw:
+            extra.setdefault(hid, set()).update(coin)
         # Host face numbers are only compared for equality: relabel them, per host grid, by their
         # rank among the faces that occur (tagged or coupled), so that no large index reaches Coq.
         rank = {}
         for hid, (tagged, coup) in zip(host_ids, hosts):
-            rank[hid] = {f: r for r, f in enumerate(sorted(set(tagged) | set(coup)))}
+            rank[hid] = {f: r for r, f in enumerate(sorted(set(tagged) | set(coup) | extra.get(hid, set())))}
         for it, hid in zip(ifaces, iface_hosts):
             rk = rank[hid]
             for c in it["cells"]:
@@ -595,7 +630,9 @@ class C25(Prop):
                 m["face"] = [[rk.get(j, len(rk) + j), v] for j, v in m["face"]]
         hosts = [[[rank[hid][f] for f in tagged], [rank[hid][f] for f in coup]]
                  for hid, (tagged, coup) in zip(host_ids, hosts)]
-        return {"ifaces": ifaces, "hosts": hosts, "vols": vols, "domain": float(meas),
+        inc = [[[rank[hid][f] for f in coin], [rank[hid][f] for f in coup], dims]
+               for hid, coin, coup, dims in inc_raw]
+        return {"inc": inc, "ifaces": ifaces, "hosts": hosts, "vols": vols, "domain": float(meas),
                 "bbox": bbox, "meas": meas_req, "nfrac": nfr, "ext": ext}
 
     def run_impl(self, case):
@@ -674,6 +711,10 @@ class C25(Prop):
                 return f"host grid spans {res['bbox']}, the domain is {case['box']}"
         if res["nfrac"] != len(case["fracs"]):
             return f"fracture grids: {res['nfrac']} for {len(case['fracs'])} requested fractures"
+        for coin, coup, dims in res["inc"]:
+            if sorted(coin) != sorted(coup):
+                return (f"coupling incomplete between a grid of dimension {dims[0]} and one of dimension "
+                        f"{dims[1]}: faces {coin} coincide with its cells, an interface couples {coup}")
         for got, want in res["ext"]:
             for (lo, hi), (wlo, whi) in zip(got, want):
                 if not near(lo, wlo) or not near(hi, whi):
@@ -730,7 +771,8 @@ class C25(Prop):
                f"{_nat(res['nfrac'])} {_nat(len(case['fracs']))})")
         span = lambda l: clist(l, lambda b: f"({cq(b[0])}, {cq(b[1])})")
         ext = clist(res["ext"], lambda e: f"({span(e[0])}, {span(e[1])})")
-        return f"conform_req3 {mdgd} {req} {ext}"
+        inc = clist(res["inc"], lambda e: f"({clist(e[0], _nat)}, {clist(e[1], _nat)})")
+        return f"conform_req4 {mdgd} {req} {ext} {inc}"
 
     def nontrivial(self, case, res):
         if case["kind"] == "split":
